@@ -62,21 +62,22 @@ theorem bReadU8_cons (r : Reader) (b : Byte) (t : Bytes) (h : r.rest = b :: t) :
     bReadU8 r = (.ok b.val, r.adv 1) := by
   simp [bReadU8, readByte_cons r b t h]
 
-theorem readBuf_full (r : Reader) (bs t : Bytes) (h : r.rest = bs ++ t) (hne : bs ≠ []) :
-    readBuf bs.length r = ((bs, false), r.adv bs.length) := by
+theorem readFull_full (r : Reader) (bs t : Bytes) (h : r.rest = bs ++ t) (hne : bs ≠ []) :
+    readFull bs.length r = (.ok bs, r.adv bs.length) := by
   obtain ⟨b, bs', rfl⟩ := List.exists_cons_of_ne_nil hne
   have hp := r.pos_lt_of_rest b (bs' ++ t) (by simpa using h)
   unfold Reader.rest at h
-  unfold readBuf
-  have : ¬ (r.pos ≥ r.data.size) := by omega
-  simp only [this, if_false, takeFrom_eq, h]
-  simp [Reader.adv, zeros]
+  unfold readFull
+  have h0 : ¬ ((b :: bs').length = 0) := by simp
+  have h1 : ¬ (r.pos ≥ r.data.size) := by omega
+  simp only [h0, h1, if_false, takeFrom_eq, h]
+  simp [Reader.adv]
 
 theorem bReadU_be (r : Reader) (n x : Nat) (t : Bytes) (hn : 0 < n) (h : r.rest = be n x ++ t) :
     bReadU n r = (.ok (x % 256 ^ n), r.adv n) := by
   have hne : be n x ≠ [] := by
     intro h0; have := congrArg List.length h0; simp at this; omega
-  have := readBuf_full r (be n x) t h hne
+  have := readFull_full r (be n x) t h hne
   simp only [be_length] at this
   simp [bReadU, this, beVal_be]
 
